@@ -4,6 +4,9 @@ import MidnightZK.Proofs.C14.EndToEnd
 import MidnightZK.Proofs.C14.EndToEndChopped
 import MidnightZK.Proofs.C14.Sound
 import MidnightZK.Proofs.C14.Dup
+import MidnightZK.Proofs.C14.Match
+import MidnightZK.Proofs.C14.Compose
+import MidnightZK.Proofs.C14.Threads
 import MidnightZK.Model.C14.Fr
 /-!
 # C14 — KZG multi-opening: correct openings verify, any wrong claim is rejected
@@ -485,6 +488,268 @@ theorem x4_fold_sound_count (claimed truth : List F) (hlen : claimed.length = tr
   x4_fold_sound_count_aux claimed truth hlen hne
 
 example : ([1, 2] : List ℚ).length = [1, 3].length ∧ ([1, 2] : List ℚ) ≠ [1, 3] := by decide
+
+/-- **What `multi_open` opens is what `multi_prepare` recomputes (grouped form).** Under the
+hypotheses of `multiopen_complete`, the prover model and the verifier's trace (`prepareTrace`, the
+function compared line by line with the trace hook inside the real `multi_prepare`; the prover's
+side is compared with the trace hook inside the real `multi_open`, `otrace` lines) satisfy, equality
+by equality (`OpenMatches`): one `q` polynomial per point set; the `x₁`-folded claims the verifier
+interpolates are the values of the prover's `q_polys` on the point sets; the `q` evaluations in the
+proof are `q_polys(x₃)`; the verifier's `f_eval` is `f_poly(x₃)`; the verifier's `v` is the
+prover's `v = final_poly(x₃)`; and `π` commits to `(final_poly − v)/(X − x₃)`. -/
+theorem multi_open_matches_verifier_groups (nMax : Nat) (hn : 0 < nMax) (s x1 x2 x3 x4 : F) (dlog : Base → F)
+    (groups : List (Group F)) (hne : groups ≠ [])
+    (hok : ∀ g ∈ groups, GroupOk nMax s x3 dlog g) :
+    ∃ out t, openGroups nMax (proverGroups groups) x1 x2 x3 x4 = some out ∧
+      prepareTrace (fun a => a⁻¹) (verifierGroups groups) ⟨true, out.qEvals, true⟩ x1 x2 x3 x4 = some t ∧
+      OpenMatches x3 out t (groups.map (·.1)) :=
+  prepareTrace_matches nMax hn s x1 x2 x3 x4 dlog (fun a => a⁻¹) (fun _ => rfl) lagrangeSpec_inv groups hne hok
+
+/-- **What `multi_open` opens is what `multi_prepare` recomputes — for every query-set shape.**
+Under the hypotheses of `multiopen_complete_refs` (any table of polynomials, any non-empty
+duplicate-free query list in any order, honest one-piece or chopped references, `x₃` different
+from the query points): `multi_open` returns `out`, `multi_prepare` reaches `v` with trace `t`,
+and for the point sets `points` of the grouping the intermediate equalities `OpenMatches` hold:
+`t.qEvalSets` = values of `out.qPolys` on the point sets, `out.qEvals = out.qPolys(x₃)`,
+`t.fEval = out.fPoly(x₃)`, `t.v = out.v = out.finalPoly(x₃)`, `final_poly − v = (X − x₃)·pi_poly`.
+(Completeness follows from these; here they are stated one by one.) -/
+theorem multi_open_matches_verifier (nMax : Nat) (hn : 0 < nMax) (s x1 x2 x3 x4 : F) (dbg : Bool)
+    (ref : Nat → ComRef) (hinj : Function.Injective ref) (dl : Nat → F)
+    (polys : List (List F)) (hlen : ∀ p ∈ polys, p.length = nMax)
+    (pq : List (Nat × F)) (hidx : ∀ q ∈ pq, q.1 < polys.length) (hnd : pq.Nodup) (hne : pq ≠ [])
+    (hx3 : ∀ q ∈ pq, x3 ≠ q.2) (hok : RefOk ref dl s polys pq) :
+    ∃ out t points, multiOpen nMax polys (proverQueries polys pq) x1 x2 x3 x4 = .ok out ∧
+      multiPrepareTrace (fun a => a⁻¹) dbg (verifierQueriesRef ref polys pq) ⟨true, out.qEvals, true⟩ x1 x2 x3 x4 = some t ∧
+      (∃ cm, constructIntermediateSets (0 : F) (proverQueries polys pq) = some (cm, points)) ∧
+      OpenMatches x3 out t points :=
+  multi_open_matches_verifier_aux nMax hn s x1 x2 x3 x4 dbg ref hinj dl polys hlen pq hidx hnd hne hx3 hok
+
+/-- Non-vacuity: two polynomials, three queries, one-piece references with honest logarithms. -/
+example : ∃ (dl : Nat → ℚ) (polys : List (List ℚ)) (pq : List (Nat × ℚ)),
+    Function.Injective ComRef.one ∧ (∀ p ∈ polys, p.length = 2) ∧ (∀ q ∈ pq, q.1 < polys.length) ∧ pq.Nodup ∧
+    pq ≠ [] ∧ (∀ q ∈ pq, (7 : ℚ) ≠ q.2) ∧ RefOk ComRef.one dl 2 polys pq := by
+  refine ⟨fun i => [3, 2].getD i 0, [[1, 1], [0, 1]], [(0, 5), (0, 6), (1, 6)],
+    fun a b h => by injection h, by simp, by simp, by decide, by simp, by norm_num, ?_⟩
+  intro q hq
+  simp only [List.mem_cons, List.not_mem_nil, or_false] at hq
+  rcases hq with rfl | rfl | rfl <;> norm_num [evalPoly]
+
+/-- The `f_eval` of the composed soundness statement (`fEvalOf`, closed form) is the value the
+model's `f_eval` fold computes from the `q` evaluations found in the proof: for ANY claimed data,
+whenever `lagrange_interpolate` returns `r pe` for every set and `x₃` is outside the point sets
+(the polynomial component `qpoly` plays no role for the verifier). -/
+theorem fEvalOf_is_verifier_f_eval (x2 x3 : F)
+    (L : List (((List F × List (List (F × Base) × List F)) × List F) × F))
+    (r qpoly : (((List F × List (List (F × Base) × List F)) × List F) × F) → List F)
+    (hr : ∀ pe ∈ L, lagrangeInterpolate (fun (a : F) => a⁻¹) pe.1.1.1 pe.1.2 = some (r pe))
+    (hx : ∀ pe ∈ L, x3 ∉ pe.1.1.1) :
+    L.foldr (fEvalStep (fun (a : F) => a⁻¹) x2 x3) (some 0) =
+      some (fEvalOf x2 x3 (L.map (fun pe => (pe.1.1.1, qpoly pe, r pe))) (L.map (·.2))) := by
+  rw [fEvalStep_fold _ x2 x3 L r hr hx, fEvalOf, List.zip_map', List.map_map]
+  rfl
+
+/-- **Soundness, steps `x₂`, `x₃`, `x₄` composed (explicit nested bad-challenge sets).** Sets
+`(Sᵢ, qᵢ, rᵢ)` after the `x₁`-fold (points, polynomial behind the folded commitment, interpolant of
+the folded claims, all of at most `nMax` coefficients), `U` the distinct points. If some `rᵢ`
+differs from `qᵢ` on `Sᵢ`, then: for all `x₂` outside a set of `≤ #sets − 1` values, WHATEVER
+polynomial `f` (degree `< nMax`) the prover commits to as `f_com`, for all `x₃ ∉ U` outside a set
+of `≤ nMax − 1 + |U|` values, WHATEVER `q` evaluations `qe` the prover writes into the proof, for
+all `x₄` outside a set of `≤ #sets` values, there is NO polynomial `w` behind `π` with
+`(X − x₃)·w = P − v`, where `P = Σ x₄ⁱ·qᵢ + x₄^m·f` is the polynomial behind the verifier's
+`final_com` and `v` the verifier's value (`vOf`, `fEvalOf_is_verifier_f_eval`). The quantifier
+order is the order of the protocol (the prover chooses `f` after `x₂`, `qe` after `x₃`, `π` after
+`x₄`). Assumed and not proved: binding (q-SDH / AGM), which lifts the pairing check at the secret
+`s` to this polynomial identity. -/
+theorem multiopen_sound_after_x1 (U : List F) (hU : U.Nodup) (nMax : Nat)
+    (gs : List (List F × List F × List F))
+    (hsub : ∀ g ∈ gs, ∀ p ∈ g.1, p ∈ U) (hnd : ∀ g ∈ gs, g.1.Nodup)
+    (hq : ∀ g ∈ gs, g.2.1.length ≤ nMax) (hr : ∀ g ∈ gs, g.2.2.length ≤ nMax)
+    (hwrong : ∃ g ∈ gs, ∃ z ∈ g.1, evalPoly g.2.2 z ≠ evalPoly g.2.1 z) :
+    ∃ bad2 : Finset F, bad2.card ≤ gs.length - 1 ∧ ∀ x2, x2 ∉ bad2 →
+      ∀ f : F[X], f.natDegree ≤ nMax - 1 →
+      ∃ bad3 : Finset F, bad3.card ≤ nMax - 1 + U.length ∧ ∀ x3, x3 ∉ bad3 → x3 ∉ U →
+        ∀ qe : List F, qe.length = gs.length →
+        ∃ bad4 : Finset F, bad4.card ≤ gs.length ∧ ∀ x4, x4 ∉ bad4 →
+          ¬ ∃ w : F[X], (X - C x3) * w =
+            finalPolyOf x4 f (gs.map (fun g => g.2.1)) - C (vOf x2 x3 x4 gs qe) :=
+  sound_x2_x3_x4 U hU nMax gs hsub hnd hq hr hwrong
+
+example : ∃ (U : List ℚ) (gs : List (List ℚ × List ℚ × List ℚ)), U.Nodup ∧ (∀ g ∈ gs, ∀ p ∈ g.1, p ∈ U) ∧
+    (∀ g ∈ gs, g.1.Nodup) ∧ (∀ g ∈ gs, g.2.1.length ≤ 2) ∧ (∀ g ∈ gs, g.2.2.length ≤ 2) ∧
+    ∃ g ∈ gs, ∃ z ∈ g.1, evalPoly g.2.2 z ≠ evalPoly g.2.1 z :=
+  ⟨[1, 2], [([1], [0, 1], [1]), ([1, 2], [1, 1], [5])], by decide, by simp, by simp, by simp, by simp,
+    ([1, 2], [1, 1], [5]), by simp, 1, by simp, by norm_num [evalPoly]⟩
+
+/-- **Soundness of the multi-opening, algebraic form: all four steps composed over the model's own
+folds.** `sets`: the verifier's point sets, each with the polynomials behind its commitments
+(`nMax` coefficients, AGM-style: commitments are polynomials) and the claimed evaluation vectors
+(`ClaimSetOk`: distinct points, `1 ≤ |S| ≤ nMax`, at least one commitment, at most `nb`); `U` the
+distinct points of all sets. If ONE claimed evaluation is wrong, then with
+`foldedSet x₁ = (S, inner_product(polys, x₁), lagrange_interpolate(S, evals_inner_product(claims, x₁)))`
+— the model's functions —: for all `x₁` outside a set of `≤ #polys(of that set) − 1` values, all
+`x₂` outside a set of `≤ #sets − 1` values, whatever `f` (degree `< nMax`) is behind `f_com`, all
+`x₃ ∉ U` outside a set of `≤ nMax − 1 + |U|` values, whatever `q` evaluations are in the proof,
+all `x₄` outside a set of `≤ #sets` values: NO polynomial `w` behind `π` satisfies the final
+identity `(X − x₃)·w = P − v` of the verifier. Each bad set is explicit in the proof (roots of an
+explicit non-zero polynomial) and may depend on the earlier challenges and prover messages, as in
+the protocol; summing the four bounds over `|F|` bounds the acceptance probability of a false
+claim in the AGM + random-oracle idealisation (that probabilistic wrapping and binding itself are
+NOT formalised). -/
+theorem multiopen_sound_algebraic (U : List F) (hU : U.Nodup) (nMax nb : Nat)
+    (sets : List (ClaimSet F)) (hok : ∀ s ∈ sets, ClaimSetOk nMax nb U s)
+    (hwrong : ∃ s ∈ sets, ∃ t, t < s.1.length ∧ ∃ p ∈ s.2, p.2.getD t 0 ≠ evalPoly p.1 (s.1.getD t 0)) :
+    ∃ npolys, npolys ≤ nb ∧ ∃ bad1 : Finset F, bad1.card ≤ npolys - 1 ∧ ∀ x1, x1 ∉ bad1 →
+      ∃ bad2 : Finset F, bad2.card ≤ sets.length - 1 ∧ ∀ x2, x2 ∉ bad2 →
+        ∀ f : F[X], f.natDegree ≤ nMax - 1 →
+        ∃ bad3 : Finset F, bad3.card ≤ nMax - 1 + U.length ∧ ∀ x3, x3 ∉ bad3 → x3 ∉ U →
+          ∀ qe : List F, qe.length = sets.length →
+          ∃ bad4 : Finset F, bad4.card ≤ sets.length ∧ ∀ x4, x4 ∉ bad4 →
+            ¬ ∃ w : F[X], (X - C x3) * w =
+              finalPolyOf x4 f ((sets.map (foldedSet x1 nb)).map (fun g => g.2.1)) -
+                C (vOf x2 x3 x4 (sets.map (foldedSet x1 nb)) qe) :=
+  multiopen_sound_algebraic_model U hU nMax nb sets hok hwrong
+
+/-- Non-vacuity: one set `{2}` with `p₀ = 1`, `p₁ = X` and the claims `2` (wrong) and `2` (right). -/
+example : ∃ (U : List ℚ) (sets : List (ClaimSet ℚ)), U.Nodup ∧ (∀ s ∈ sets, ClaimSetOk 2 2 U s) ∧
+    ∃ s ∈ sets, ∃ t, t < s.1.length ∧ ∃ p ∈ s.2, p.2.getD t 0 ≠ evalPoly p.1 (s.1.getD t 0) := by
+  refine ⟨[2], [([2], [([1, 0], [2]), ([0, 1], [2])])], by decide, ?_, _, List.mem_singleton.2 rfl, 0,
+    by simp, ([1, 0], [2]), by simp, by norm_num [evalPoly]⟩
+  intro s hs
+  rw [List.mem_singleton.1 hs]
+  exact { nodup := by decide, pts_ne := by simp, pts_le := by simp, sub := by simp, ne := by simp,
+          nb_le := by simp, plen := by simp, elen := by simp }
+
+/-- **The pairing check is the final identity at the secret.** With `qᵢ`, `f`, `w` the polynomials
+behind the folded commitments, `f_com` and `π` (algebraic group model), the dual MSM that
+`prepareGroups` returns — `left = [π]`, `right = msm_inner_product(q_coms ++ [f_com], powers(x₄)) ++
+[x₃·π, v·(−G)]` — passes `DualMSM::check` (on discrete logarithms) exactly when
+`(X − x₃)·w = P − v` holds at `X = s`, `P = finalPolyOf` being the polynomial of
+`multiopen_sound_algebraic`. Binding (q-SDH: the prover does not know `s`) is the assumption under
+which an identity at `s` between polynomials the prover knows is an identity of polynomials; it is
+not proved here. -/
+theorem pairing_check_is_final_identity_at_s (dlog : Base → F) (s x3 x4 v : F) (f w : F[X])
+    (qComs : List (List (F × Base))) (qs : List (List F))
+    (hq : qComs.map (msmLog dlog) = qs.map (fun q => evalPoly q s))
+    (hf : dlog .f = f.eval s) (hpi : dlog .pi = w.eval s) (hneg : dlog .negG = -1) :
+    checkLog s dlog { left := [((1 : F), Base.pi)],
+                      right := msmInnerProduct (qComs ++ [[((1 : F), Base.f)]]) (powersN x4 (qComs.length + 1) 1) ++
+                        [(x3, Base.pi), (v, Base.negG)] } = true ↔
+      ((X - C x3) * w).eval s = (finalPolyOf x4 f qs - C v).eval s :=
+  check_is_identity_at_s dlog s x3 x4 v f w qComs qs hq hf hpi hneg
+
+/-- non-vacuity: one folded commitment `k₀` to `q = 1 + X`, `f = X`, `w = 0`, `s = 2`. -/
+example : ∃ (dlog : Base → ℚ) (f w : ℚ[X]) (qComs : List (List (ℚ × Base))) (qs : List (List ℚ)),
+    qComs.map (msmLog dlog) = qs.map (fun q => evalPoly q 2) ∧ dlog .f = f.eval 2 ∧ dlog .pi = w.eval 2 ∧
+    dlog .negG = -1 :=
+  ⟨fun b => match b with | .com _ => 3 | .f => 2 | .pi => 0 | .negG => -1, X, 0, [[(1, Base.com 0)]], [[1, 1]],
+    by norm_num [msmLog, evalPoly], by simp, by simp, rfl⟩
+
+/-- **The `v` (and `f_eval`) of `multiopen_sound_algebraic` are the model verifier's.** For
+well-formed claim sets, `nb` the largest number of commitments in a set (what `multi_prepare`
+computes as `nb_x1_powers`), whatever `q` evaluations `qe` the proof contains and `x₃` outside the
+points: `prepareTrace` — the computation of `prepareGroups`/`multi_prepare`
+(`prepare_trace_consistent`), compared line by line with the trace hook of the real `multi_prepare` —
+reaches `v`, and its `f_eval`, `v` are `fEvalOf`, `vOf` over the folds `foldedSet`. Together with
+`pairing_check_is_final_identity_at_s` this ties the identity refuted in
+`multiopen_sound_algebraic` to the check the model verifier defers. -/
+theorem composed_v_is_verifier_v (nMax nb : Nat) (U : List F) (sets : List (ClaimSet F))
+    (hok : ∀ s ∈ sets, ClaimSetOk nMax nb U s)
+    (hnb : nb = (sets.map (fun s => s.2.length)).foldl max 0)
+    (terms : List F × List F → List (F × Base)) (x1 x2 x3 x4 : F) (hx3 : x3 ∉ U)
+    (qe : List F) (hqe : qe.length = sets.length) :
+    ∃ t, prepareTrace (fun (a : F) => a⁻¹) (claimGroups terms sets) ⟨true, qe, true⟩ x1 x2 x3 x4 = some t ∧
+      t.fEval = fEvalOf x2 x3 (sets.map (foldedSet x1 nb)) qe ∧
+      t.v = vOf x2 x3 x4 (sets.map (foldedSet x1 nb)) qe :=
+  verifier_v_is_vOf nMax nb U sets hok hnb terms x1 x2 x3 x4 hx3 qe hqe
+
+example : ∃ (U : List ℚ) (sets : List (ClaimSet ℚ)) (qe : List ℚ), (∀ s ∈ sets, ClaimSetOk 2 2 U s) ∧
+    2 = (sets.map (fun s => s.2.length)).foldl max 0 ∧ (5 : ℚ) ∉ U ∧ qe.length = sets.length := by
+  refine ⟨[2], [([2], [([1, 0], [2]), ([0, 1], [2])])], [7], ?_, by decide, by norm_num, rfl⟩
+  intro s hs
+  rw [List.mem_singleton.1 hs]
+  exact { nodup := by decide, pts_ne := by simp, pts_le := by simp, sub := by simp, ne := by simp,
+          nb_le := by simp, plen := by simp, elen := by simp }
+
+/-- The verifier's folded commitments `q_comᵢ = msm_inner_product(MSMs of set i, powers_x1)` are
+commitments to the folded polynomials `inner_product(polys of set i, powers(x₁))` of `foldedSet`,
+whenever the terms of every commitment have the logarithm of its polynomial at `s` (one-piece or
+chopped, `chopped_terms_spec`). -/
+theorem folded_commitments_commit_to_folded_polys (nMax nb : Nat) (U : List F) (sets : List (ClaimSet F))
+    (hok : ∀ s ∈ sets, ClaimSetOk nMax nb U s)
+    (terms : List F × List F → List (F × Base)) (dlog : Base → F) (s x1 : F)
+    (hterms : ∀ cs ∈ sets, ∀ pe ∈ cs.2, msmLog dlog (terms pe) = evalPoly pe.1 s) :
+    ((claimGroups terms sets).map (fun g => msmInnerProduct (g.2.map (·.1)) (powersN x1 nb 1))).map (msmLog dlog) =
+      ((sets.map (foldedSet x1 nb)).map (fun g => g.2.1)).map (fun q => evalPoly q s) :=
+  qComs_log nMax nb U sets hok terms dlog s x1 hterms
+
+/-- **The model verifier's deferred check IS the final identity of `multiopen_sound_algebraic` at the
+secret.** For well-formed claim sets whose commitments are commitments to the polynomials (AGM
+reading: `log(terms) = p(s)`), `f_com`, `π` with polynomials `f`, `w` behind them, any `q`
+evaluations in the proof, `x₃` outside the points: `prepareGroups` (the body of `multi_prepare`)
+returns a dual MSM, and `DualMSM::check` accepts it (on discrete logarithms) exactly when
+`(X − x₃)·w = P − v` holds at `X = s`, with `P`, `v` the polynomial and value of
+`multiopen_sound_algebraic` for the same challenges. So: one wrong claimed evaluation ⇒ outside the
+explicit bad challenge sets the identity fails as a polynomial identity, and the verifier accepts
+only if it nevertheless holds at the secret point `s` — which is what binding (q-SDH) excludes;
+that last step is the named assumption. -/
+theorem model_check_is_final_identity_at_s (nMax nb : Nat) (U : List F) (sets : List (ClaimSet F))
+    (hok : ∀ s ∈ sets, ClaimSetOk nMax nb U s)
+    (hnb : nb = (sets.map (fun s => s.2.length)).foldl max 0)
+    (terms : List F × List F → List (F × Base)) (dlog : Base → F) (s x1 x2 x3 x4 : F) (hx3 : x3 ∉ U)
+    (qe : List F) (hqe : qe.length = sets.length) (f w : F[X])
+    (hterms : ∀ cs ∈ sets, ∀ pe ∈ cs.2, msmLog dlog (terms pe) = evalPoly pe.1 s)
+    (hf : dlog .f = f.eval s) (hpi : dlog .pi = w.eval s) (hneg : dlog .negG = -1) :
+    ∃ dual, prepareGroups (fun (a : F) => a⁻¹) (claimGroups terms sets) ⟨true, qe, true⟩ x1 x2 x3 x4 = .ok dual ∧
+      (checkLog s dlog dual = true ↔
+        ((X - C x3) * w).eval s =
+          (finalPolyOf x4 f ((sets.map (foldedSet x1 nb)).map (fun g => g.2.1)) -
+            C (vOf x2 x3 x4 (sets.map (foldedSet x1 nb)) qe)).eval s) :=
+  model_check_iff_identity_at_s nMax nb U sets hok hnb terms dlog s x1 x2 x3 x4 hx3 qe hqe f w hterms hf hpi hneg
+
+/-- non-vacuity: the set `{2}` with `p₀ = 1`, `p₁ = X` behind the commitments `k₀`, `k₁`
+(logarithms `1` and `s = 3`), `f = X`, `w = 0`. -/
+example : ∃ (U : List ℚ) (sets : List (ClaimSet ℚ)) (terms : List ℚ × List ℚ → List (ℚ × Base))
+    (dlog : Base → ℚ) (f w : ℚ[X]), (∀ s ∈ sets, ClaimSetOk 2 2 U s) ∧
+    (∀ cs ∈ sets, ∀ pe ∈ cs.2, msmLog dlog (terms pe) = evalPoly pe.1 3) ∧
+    dlog .f = f.eval 3 ∧ dlog .pi = w.eval 3 ∧ dlog .negG = -1 := by
+  refine ⟨[2], [([2], [([1, 0], [2]), ([0, 1], [2])])],
+    fun pe => [(1, Base.com (if pe.1 = [1, 0] then 0 else 1))],
+    fun b => match b with | .com i => if i = 0 then 1 else 3 | .f => 3 | .pi => 0 | .negG => -1,
+    X, 0, ?_, ?_, by simp, by simp, rfl⟩
+  · intro s hs
+    rw [List.mem_singleton.1 hs]
+    exact { nodup := by decide, pts_ne := by simp, pts_le := by simp, sub := by simp, ne := by simp,
+            nb_le := by simp, plen := by simp, elen := by simp }
+  · intro cs hcs pe hpe
+    rw [List.mem_singleton.1 hcs] at hpe
+    simp only [List.mem_cons, List.not_mem_nil, or_false] at hpe
+    rcases hpe with rfl | rfl <;> norm_num [msmLog, evalPoly]
+
+/-- The honest prover passes the same final identity (the composed statement is not vacuous on the
+other side): whenever the `q` evaluations are `qᵢ(x₃)` and `v` is the value of the final polynomial
+at `x₃`, the quotient `w` exists (`pi_unique` gives its uniqueness). -/
+theorem final_identity_complete (x3 x4 : F) (f : F[X]) (qs : List (List F)) :
+    ∃ w : F[X], (X - C x3) * w = finalPolyOf x4 f qs - C ((finalPolyOf x4 f qs).eval x3) := by
+  have h : (X - C x3) ∣ finalPolyOf x4 f qs - C ((finalPolyOf x4 f qs).eval x3) :=
+    Polynomial.dvd_iff_isRoot.2 (by simp)
+  obtain ⟨w, hw⟩ := h
+  exact ⟨w, hw.symm⟩
+
+/-- **`eval_polynomial` does not depend on the size of the rayon pool.** `evalPolyThreads t` mirrors
+`arithmetic.rs: eval_polynomial` as written (serial when `n·2 < t`, otherwise chunks of `⌈n/t⌉`
+zipped with `t` result slots, slot `i` shifted by `x^(i·chunk)`, summed; compared with the real
+function inside explicit rayon pools, `evalt` lines): for every `t ≥ 1`, every coefficient vector and
+every point it is Horner's value — no chunk is dropped by the `zip` because `⌈n/⌈n/t⌉⌉ ≤ t`
+(with the chunk size rounded DOWN this fails, seed C14-3). Hence the `q` evaluations and `v` of
+`multi_open` and the `r_eval` of `multi_prepare`, all computed through `evalPoly` in the model, are
+the values the code computes under any thread count. -/
+theorem eval_polynomial_thread_independent (t : Nat) (ht : 0 < t) (p : List F) (x : F) :
+    evalPolyThreads t p x = evalPoly p x :=
+  evalPolyThreads_eq t ht p x
+
+/-- non-vacuity: 3 threads, 4 coefficients (chunks of 2: `[1,2]`, `[3,4]`, third slot unused) -/
+example : evalPolyThreads 3 ([1, 2, 3, 4] : List ℚ) 2 = 49 := by
+  norm_num [evalPolyThreads, chunksOf, evalPoly, powNat, List.zipIdx]
 
 end algebra
 
